@@ -294,6 +294,9 @@ def _events(args):
                 rows2, _f2 = lex(direct)
                 if sorted(map(str, rows2)) != sorted(map(str, rows)):
                     ev.append(["gff", 0, model, rows2, shared])
+                rows3, _f4 = lex("##gff-version 3\n" + "".join(str(r) + "\n" for r in coll.to_gff()))
+                if sorted(map(str, rows3)) != sorted(map(str, rows)):
+                    ev.append(["gff", 0, model, rows3, shared])
                 # ... and of every transcript / feature interval on its own: its rows (type, start, end, strand, phase)
                 # are rows of the collection's export
                 have = {(r[3], r[4], r[5], r[7], r[8]) for r in rows}
